@@ -9,16 +9,7 @@ Open Scope Q_scope.
 (* ------------------------------------------------------------------------------------------ *)
 (* witnesses: rounding at other than the documented points                                     *)
 (* ------------------------------------------------------------------------------------------ *)
-(* (1) a rate x quantity charge is rounded at the decimals the rate was written with:
-   1 x 10.00 with a charge of 3 per unit on 0.5 units, two decimals, 'precise':
-   presented total 12.00, exact value 11.50 - fifty minor units away *)
-Definition w_rate_charge : doc :=
-  mkDoc 2 false [] 1
-    [mkLine (mkA 1 0) (mkItem (mkA 1000 2) None []) [] []
-            [mkLdc (mkA 0 0) None None (Some (mkA 3 0)) (Some (mkA 5 1))] []]
-    [] [] [] [] [] None.
-
-(* (2) a price converted by an exchange rate is rounded to the currency's decimals before it is
+(* (1) a price converted by an exchange rate is rounded to the currency's decimals before it is
    multiplied by the quantity: 1000 x 1.00 USD at 0.915, two decimals, 'precise':
    presented total 920.00, exact value 915.00 *)
 Definition w_exchange : doc :=
@@ -26,7 +17,7 @@ Definition w_exchange : doc :=
     [mkLine (mkA 1000 0) (mkItem (mkA 100 2) (Some (2%Z, 2%nat)) []) [] [] [] []]
     [] [] [mkXrate 2 1 (mkA 915 3)] [] [] None.
 
-(* (3) the price of a line with a breakdown is rounded to the decimals of the sub-line prices:
+(* (2) the price of a line with a breakdown is rounded to the decimals of the sub-line prices:
    1000 x (0.5 x 0.01), two decimals, 'precise': presented total 10.00, exact value 5.00 *)
 Definition w_breakdown : doc :=
   mkDoc 2 false [] 1
@@ -37,13 +28,6 @@ Definition far_from_exact (d : doc) : Prop :=
   d_currency_rule d = false /\ (length (d_lines d) <= 1)%nat /\
   exists t x, calculate d = Totals t /\ exact d = Some x /\
     unitQ (d_c d) <= Qabs (toQ (t_total t) - i_total x).
-
-Lemma w_rate_charge_far : far_from_exact w_rate_charge.
-Proof.
-  split; [reflexivity|]. split; [cbn; lia|].
-  eexists. eexists. split; [vm_compute; reflexivity|]. split; [vm_compute; reflexivity|].
-  vm_compute. discriminate.
-Qed.
 
 Lemma w_exchange_far : far_from_exact w_exchange.
 Proof.
@@ -60,14 +44,14 @@ Proof.
 Qed.
 
 (* the last sentence of the property, unrestricted, is false of the model: a one-line document
-   whose presented total is a full minor unit (here: fifty) away from the exact value *)
+   whose presented total is a full minor unit (here: five hundred) away from the exact value *)
 Lemma precise_error_bound_unrestricted_refuted :
   exists d, d_currency_rule d = false /\ (length (d_lines d) <= 1)%nat /\
     exists t x, calculate d = Totals t /\ exact d = Some x /\
       unitQ (d_c d) <= Qabs (toQ (t_total t) - i_total x).
-Proof. exists w_rate_charge. exact w_rate_charge_far. Qed.
+Proof. exists w_exchange. exact w_exchange_far. Qed.
 
-(* (4) under 'currency' a line sum is NOT the product rounded once to the currency's decimals:
+(* (3) under 'currency' a line sum is NOT the product rounded once to the currency's decimals:
    a price with more decimals than the currency makes it a double rounding.
    0.05 x 0.0999 = 0.004995: rounded at 4 decimals 0.0050, then at 2 decimals 0.01; rounded once 0.00 *)
 Definition w_double_rounding : line := mkLine (mkA 5 2) (mkItem (mkA 999 4) None []) [] [] [] [].
@@ -166,8 +150,8 @@ Qed.
 (* ------------------------------------------------------------------------------------------ *)
 Definition pct_ok (p : option amount) : Prop :=
   match p with Some q => Qabs (toQ q) <= 1 | None => True end.
-(* no rate x quantity; a percentage of at most 100% either way *)
-Definition simple_row (d : ldc) : Prop := ld_rate d = None /\ pct_ok (ld_pct d).
+(* a fixed amount, a rate x quantity, or a percentage of at most 100% either way *)
+Definition simple_row (d : ldc) : Prop := pct_ok (ld_pct d).
 (* priced in the document's currency, or by an alternative price in it *)
 Definition unconverted (cur : Z) (it : item) : Prop :=
   match it_cur it with
@@ -201,24 +185,25 @@ Lemma s_row_close c sum sum' q ch d : simple_row d ->
   cl (eps c) (fq sum) (fq sum') -> fp sum' = fp sum -> (c + 2 <= fp sum)%nat ->
   cl (2 * eps c) (fq (s_row rnd false c sum q ch d)) (fq (s_row noround false c sum' q ch d)).
 Proof.
-  intros [NR PO] CS EP W. unfold s_row. rewrite NR.
-  replace (if ch then _ else _) with
-    (match nonzero_pct (ld_pct d) with
+  intros PO CS EP W. unfold s_row. pose proof (eps_pos c) as EPS.
+  assert (A1 : cl (2 * eps c)
+    (fq (match nonzero_pct (ld_pct d) with
      | Some p => prod rnd match ld_base d with Some b => s_base rnd false c b | None => sum end p
-     | None => of_amount (ld_amount d) end) by (destruct ch; reflexivity).
-  replace (if ch then _ else _) with
-    (match nonzero_pct (ld_pct d) with
+     | None => of_amount (ld_amount d) end))
+    (fq (match nonzero_pct (ld_pct d) with
      | Some p => prod noround match ld_base d with Some b => s_base noround false c b | None => sum' end p
-     | None => of_amount (ld_amount d) end) by (destruct ch; reflexivity).
-  unfold settle. cbn [raise fq]. pose proof (eps_pos c) as EPS.
-  destruct (nonzero_pct (ld_pct d)) as [p|] eqn:NP.
-  - pose proof (nonzero_pct_ok _ _ PO NP) as P1. unfold prod. cbn [fq fp]. unfold noround at 1.
-    destruct (ld_base d) as [b|].
-    + unfold s_base. cbn [raise fq fp of_amount].
-      eapply cl_weaken; [apply (cl_rnd_w c); [lia|apply cl_refl]|lra].
-    + setoid_replace (2 * eps c) with (eps c + eps c) by ring.
-      apply (cl_rnd_w c); [exact W|]. apply cl_mult; assumption.
-  - eapply cl_weaken; [apply cl_refl|lra].
+     | None => of_amount (ld_amount d) end))).
+  { destruct (nonzero_pct (ld_pct d)) as [p|] eqn:NP.
+    - pose proof (nonzero_pct_ok _ _ PO NP) as P1. unfold prod. cbn [fq fp]. unfold noround at 1.
+      destruct (ld_base d) as [b|].
+      + unfold s_base. cbn [raise fq fp of_amount].
+        eapply cl_weaken; [apply (cl_rnd_w c); [lia|apply cl_refl]|lra].
+      + setoid_replace (2 * eps c) with (eps c + eps c) by ring.
+        apply (cl_rnd_w c); [exact W|]. apply cl_mult; assumption.
+    - eapply cl_weaken; [apply cl_refl|lra]. }
+  unfold settle. cbn [raise fq]. destruct ch; [|exact A1].
+  destruct (ld_rate d) as [r|]; [|exact A1].
+  cbn [fq]. eapply cl_weaken; [apply cl_refl|lra].
 Qed.
 
 Lemma s_rows_close c sum sum' q ch ds : Forall simple_row ds ->
@@ -249,8 +234,8 @@ Proof.
     setoid_replace (eps c) with (0 + eps c) by ring. apply (cl_rnd_w c); [lia|apply cl_refl]. }
   split; [|exact W].
   unfold s_total. cbn [fq fp].
-  pose proof (cl_sum_uniform _ _ _ (s_rows_close c sum sum' (toQ (ln_qty l)) false _ FD CS EP W)) as SD.
-  pose proof (cl_sum_uniform _ _ _ (s_rows_close c sum sum' (toQ (ln_qty l)) true _ FC CS EP W)) as SC.
+  pose proof (cl_sum_uniform _ _ _ (s_rows_close c sum sum' (of_amount (ln_qty l)) false _ FD CS EP W)) as SD.
+  pose proof (cl_sum_uniform _ _ _ (s_rows_close c sum sum' (of_amount (ln_qty l)) true _ FC CS EP W)) as SC.
   rewrite !map_length in SD, SC.
   unfold e_line.
   setoid_replace ((1 + 3 * nQ (length (ln_discounts l)) + 3 * nQ (length (ln_charges l))) * eps c)
